@@ -899,13 +899,19 @@ func (d *Document) calculateDisplaySize(imageInfo *ImageInfo) (int64, int64) {
 		} else if config.Size.Width > 0 && config.Size.KeepAspectRatio {
 			// 只指定宽度，保持长宽比
 			displayWidth = int64(config.Size.Width * 36000)
-			ratio := float64(originalHeight) / float64(originalWidth)
-			displayHeight = int64(float64(displayWidth) * ratio)
+			// 像素宽度为0时长宽比无定义（除以零得到Inf/NaN，转换为int64后是一个巨大的负数），
+			// 此时高度保持像素尺寸
+			if originalWidth > 0 {
+				ratio := float64(originalHeight) / float64(originalWidth)
+				displayHeight = int64(float64(displayWidth) * ratio)
+			}
 		} else if config.Size.Height > 0 && config.Size.KeepAspectRatio {
 			// 只指定高度，保持长宽比
 			displayHeight = int64(config.Size.Height * 36000)
-			ratio := float64(originalWidth) / float64(originalHeight)
-			displayWidth = int64(float64(displayHeight) * ratio)
+			if originalHeight > 0 {
+				ratio := float64(originalWidth) / float64(originalHeight)
+				displayWidth = int64(float64(displayHeight) * ratio)
+			}
 		}
 	}
 
